@@ -113,6 +113,16 @@ class TableAll(Monitor):
             return
         boards = [list(st.get_board_cards(b)) for b in st.board_indices]
         types = [h.__name__ for h in st.hand_types]
+        # a player who tabled only part of his cards (the scheduler's partial show) and whose tabled cards form no hand on any
+        # board for any hand type has given his hand up: he is out of the hand and his chips are dead money, like a folder's
+        # (otherwise a pot layer only he is eligible for would have no taker)
+        keys = rs.hand_keys(types, self.hands, boards or [[]], [i for i in range(n) if live[i]])
+        for i in range(n):
+            if live[i] and i in self.tabled and all(k is None for (j, _, _), k in keys.items() if j == i):
+                live[i] = False
+                world.ctx.count('partial_show_without_a_hand')
+        if sum(live) < 2:
+            return
         layers = rs.layers_of(self.contrib, self.antes, live, st.ante_trimming_status)
         award = rs.settle(layers, live, types, self.hands, boards)
         world.ctx.count('table_all_settlements')
